@@ -247,7 +247,7 @@ pub fn scenarios() -> Vec<Scenario> {
         Scenario {
             name: "reorg re-announcement on the block path".into(),
             setup: vec![reg0.clone(), add(0, 0), d0.clone(), Op::Poll, plain.clone(), Op::Poll],
-            poll_script: vec![Op::Reorg { depth: 1, extra: 1, first: vec![], later_at: 0, later: vec![] }, Op::Poll],
+            poll_script: vec![Op::Reorg { depth: 1, extra: 1, first: vec![], later_at: 0, later: vec![], evict: false }, Op::Poll],
             req_script: vec![get0.clone()],
         },
         Scenario { name: "multi-block poll, no breach".into(), setup: vec![reg0.clone()], poll_script: vec![plain.clone(), plain.clone(), plain.clone(), Op::Poll], req_script: vec![add(0, 0), get0] },
